@@ -250,6 +250,10 @@ func runC05(c *Ctx) {
 		offs = g.MustFollow(setTrue, nodeSet(restore), isExit)
 		c.Offences(g, offs, r5, "AddIfNotExist: the saved flag is restored on every exit", f.Decl.Pos(), "restored from the saved value", "an exit leaves IsUnique forced to true (or never restores the saved value)")
 	}
+
+	r6 := c.Rule("R6", "a writer holding a stale copy of a leaf never installs it: commitUpdatedNodes compares every handle's version with the version of the node the transaction read, unconditionally, and reports a conflict on a mismatch - the conflict is what sends the writer through refetch-and-merge, where the replayed add meets the duplicate check (shared with C02.R2)", 3)
+	versionLoopRule(c, r6, kNRBcommitUpdated, true)
+
 }
 
 func runC06(c *Ctx) {
